@@ -13,6 +13,10 @@ FUNCTIONS = ["src/linalg/polyhedron.rs", "src/linalg/affine.rs"]
 FR = Fraction
 OPT_EPS = FR(1, 10**6)
 MEMB = FR(1, 10**8)
+# Counter-witnesses ("a point with margin exists", "a better point exists") must lie where f64 can tell: with |x_i| <= 2^26
+# the rounding error of a.x is below 2^-52 * 2^26 * |a|_1 << 1e-6 |a|_1.  Systems whose only such points sit at 1e12..1e18
+# (slivers between rows that are parallel up to the rounding of their coefficients) are beyond any f64 LP solver.
+FARBOX = 2**26
 
 
 def gen_system(rng, cat, n, thorough):
@@ -126,6 +130,7 @@ def referee(q, A, b, c, ans, n, label, out):
     xs = q.xs
     rows = [Con(r, v, False) for r, v in zip(A, b)]
     exact = [zclosed(rw.closed(0), xs) for rw in rows]
+    near = [z3.And(x <= FARBOX, x >= -FARBOX) for x in xs]
     st = ans["status"]
     out["obl"] += 1
     out["status"][st] = out["status"].get(st, 0) + 1
@@ -133,7 +138,7 @@ def referee(q, A, b, c, ans, n, label, out):
         out["viol"].append(("error", "%s: backend error %s" % (label, ans.get("msg"))))
         return
     if st == "infeasible":
-        r, m = q.check([zclosed(rw.closed(-TAU), xs) for rw in rows], sample_tag="C10 infeasible => tightened system empty")
+        r, m = q.check([zclosed(rw.closed(-TAU), xs) for rw in rows] + near, sample_tag="C10 infeasible => tightened system empty (|x| <= 2^26)")
         if r == "sat":
             out["viol"].append(("infeasible-but-nonempty", "%s: reported infeasible, but x=%s satisfies every row with margin 1e-6" % (
                 label, [float(v) for v in m])))
@@ -157,14 +162,15 @@ def referee(q, A, b, c, ans, n, label, out):
         out["obl"] += 2
         winf = max([abs(v) for v in w] + [FR(0)])
         for rw in rows:
-            slack = MEMB * (1 + abs(rw.b) + l1(rw.a) * winf)
+            # the backend's feasibility tolerance acts on the row scaled to unit norm: 1e-8 relative to the row's size
+            slack = MEMB * (max(FR(1), l1(rw.a)) + abs(rw.b) + l1(rw.a) * winf)
             if dot(rw.a, w) - rw.b > slack:
                 out["viol"].append(("witness-outside", "%s: returned point %s violates row %s <= %s by %.3g" % (
                     label, [float(v) for v in w], [float(v) for v in rw.a], float(rw.b), float(dot(rw.a, w) - rw.b))))
                 return
         val = dot(c, w)
         eps = OPT_EPS * (1 + abs(val))
-        r, m = q.check(exact + [obj < zfrac(val - eps)], sample_tag="C10 optimal => no better point")
+        r, m = q.check(exact + near + [obj < zfrac(val - eps)], sample_tag="C10 optimal => no better point (|x| <= 2^26)")
         if r == "sat":
             out["viol"].append(("not-optimal", "%s: returned objective %.6g, but x=%s is feasible with objective %.6g" % (
                 label, float(val), [float(v) for v in m], float(dot(c, m)))))
@@ -293,16 +299,18 @@ def main():
             chk.sample({"case": case["id"], "meta": case["meta"], "answers": o["status"]})
     chk.cov["answers"] = status
     chk.cov["rule"] = ("constraint systems by category (bounded, empty with margin, empty by 2^-30, single point, lower-dimensional, "
-                       "unbounded, redundant rows, zero rows with +/0/- bias, parallel rows, a completely free coordinate, random), "
+                       "unbounded, redundant rows, zero rows with +/0/- bias, parallel rows, a completely free coordinate, mixed-scale and tiny rows, far-away regions, no rows, random), "
                        "dims 1..3 (4), rows <= 5+2n, five objectives each (zero, +/- facet normal, random, unit vector); plus every LP "
                        "the real pruning runs pose on seeded histories (hook call log); non-trivial = different answers within a case")
     chk.cov["explanation"] = ("z3 referees every answer of the real LP layer over all points: infeasible => the system tightened by "
-                              "tau=1e-6 is empty; feasible => the system relaxed by tau is non-empty; optimal(w) => w satisfies every "
-                              "row within 1e-8 (relative to |b|+|a||w|) and no feasible point has an objective smaller by more than "
-                              "1e-6(1+|value|); unbounded => a feasible point and an improving recession direction exist; the "
+                              "tau=1e-6 has no point with |x_i| <= 2^26; feasible => the system relaxed by tau is non-empty; optimal(w) => w "
+                              "satisfies every row within 1e-8 (relative to max(1,|a|)+|b|+|a||w|) and no feasible point with |x_i| <= 2^26 "
+                              "has an objective smaller by more than 1e-6(1+|value|); unbounded => a feasible point and an improving recession direction exist; the "
                               "Chebyshev program has the documented rows/objective and its answer passes the same referee")
     chk.cov["bounds"] = {"dims": 3 if chk.tier == "quick" else 4, "rows": "<= 11"}
-    chk.assumptions += ["points/directions: all reals (solver); systems and objectives: categories x seeded lattice"]
+    chk.assumptions += ["points/directions: all reals (solver); systems and objectives: categories x seeded lattice",
+                        "counter-witnesses (a point with margin, a better point) are sought within |x_i| <= 2^26: beyond that f64 cannot resolve "
+                        "the 1e-6 margin, and slivers that open only at 1e12..1e18 are outside the claim"]
     return chk.finish()
 
 
